@@ -2,7 +2,11 @@
    Only statements, each closed by [exact] and followed by Print Assumptions. *)
 From GV Require Import Prelude.Base Model.WsT Model.WsTSpec Proofs.WsTProofs.
 
-(* UNCONDITIONAL (any state, any outcome): an operation leaves every type node -- address, primitive type, name -- that is
+(* Driver convention (Model/WsT.v header): [RemoveWs] = `ws.remove_entity(ws.get_entity(u)[0])`, the caller holds no reference
+   to the removed entity, so the final sweep of remove_entity sees its type dead; when the caller keeps a reference the type
+   of that one entity survives until a later sweep (then the footprint of the removal is smaller, that of the later sweep
+   larger -- both covered by "the types nobody uses any more").
+   UNCONDITIONAL (any state, any outcome): an operation leaves every type node -- address, primitive type, name -- that is
    not in its type footprint identical: the type a creation introduces, the type whose attribute is assigned, the types
    nobody uses any more for a removal through the workspace / a `types` listing; nothing for a removal through the parent
    and for close + open *)
@@ -17,7 +21,13 @@ Theorem C09T_links_frame : forall s o e, ~ In e (ent_footprint s o) ->
 Proof. exact links_frame. Qed.
 Print Assumptions C09T_links_frame.
 
-(* close + open without mutation writes nothing: Types container, Type links, addresses *)
+(* DEFINITIONAL (unfolds [do_reopen], which copies ftypes / fents / next): close + open writes nothing to the Types container
+   and to the Type links.  Scope: the typed layer does not model the close-time walk `save_entity(root, add_children=True)`
+   nor the `self.groups` listing that close runs -- i.e. it speaks of states in which every live entity is already stored
+   (true of every reachable state: entities are saved on creation) and says nothing about the flat nodes of dead GROUPS that
+   close sweeps; that part of "open/close without mutation is the identity" is the X model's C09_step_frame_rep (Reopen
+   rewrites nothing except deleting swept dead groups).  The typed content of this theorem is: neither close nor open
+   touches a type node or a Type link, which the correspondence stream checks after every Reopen. *)
 Theorem C09T_reopen_file_identity : forall s,
   ftypes (fst (step s Reopen)) = ftypes s /\ fents (fst (step s Reopen)) = fents s /\ next (fst (step s Reopen)) = next s.
 Proof. exact reopen_file_identity. Qed.
